@@ -19,7 +19,7 @@ META = {
     'outside': ['dask schedulers / worker counts', 'halo larger than the raster extent (dask limitation, excluded by the property)', 'rasters larger than the bound'],
     'assumptions': [],
     'replay_samples': {'quick': 4, 'thorough': 12},   # every replayed call re-JITs the proximity closure in the real build (~5 s)
-    'budget_s': {'quick': 200, 'thorough': 1800},
+    'budget_s': {'quick': 300, 'thorough': 1800},
 }
 
 
